@@ -5,7 +5,7 @@ Oracle: metamorphic with a trusted anchor - the p2bin image of the rewritten pro
 recorded tests/<t>/<t>.ori.
 """
 import re
-from vf import engine, corpus, golden, rewrite
+from vf import engine, corpus, golden, rewrite, variants
 from vf.gen import composite
 
 ID = "C16"
@@ -73,7 +73,11 @@ def strategy_(d, tier):
         stride = d.weighted([(4, 1), (2, 2), (1, 3), (1, 7)])
         edits.append([kind, stride, d.int(0, 6), d.int(0, 40)])
     flags = dict(crlf=d.bool(0.25), include=d.bool(0.2), macro=d.bool(0.2))
-    return dict(test=name, edits=edits, flags=flags)
+    case = dict(test=name, edits=edits, flags=flags)
+    if d.bool(0.4):
+        # the program is a line-edited variant of the golden test; its own image is the reference then
+        case["var"] = variants.ops_strategy(d)
+    return case
 
 
 def strategy(tier):
@@ -101,8 +105,17 @@ def execute(case):
     name = case["test"]
     t = corpus.load(name)
     edits, flags = effective(case)
-    files, main, st = rewrite.apply(t["src"].decode("latin-1"), edits, flags)
-    classes = ["kind:" + k for k in st["kinds"]]
+    src0, ori = t["src"], t["ori"]
+    if case.get("var"):
+        src0 = variants.apply(src0, case["var"])
+        r0 = golden.assemble_golden(name, src=src0)
+        if r0["timed_out"]:
+            return engine.inconclusive("timeout", ["golden-variant"])
+        if r0["status"] != 0 or r0["image"] is None:
+            return engine.discarded("variant-invalid", ["golden-variant"])
+        ori = r0["image"]
+    files, main, st = rewrite.apply(src0.decode("latin-1"), edits, flags)
+    classes = ["kind:" + k for k in st["kinds"]] + (["golden-variant"] if case.get("var") else [])
     if st["total"]:
         classes.append("understood>=%d%%" % (10 * (10 * st["understood"] // st["total"])))
     if not st["kinds"]:
@@ -112,7 +125,7 @@ def execute(case):
                                extra_files={k: v.encode("latin-1") for k, v in files.items()})
     if r["timed_out"]:
         return engine.inconclusive("timeout", classes)
-    if r["ok"]:
+    if r["image"] is not None and r["image"] == ori:
         return engine.ok(key, classes, changed=st["changed"])
     detail = dict(test=name, kinds=st["kinds"], status=r["status"], stderr=r["r"].err[-1500:],
                   changed_lines=st["changed"])
@@ -121,9 +134,9 @@ def execute(case):
     if r["status"] != 0:
         return engine.bad("rewritten %s (%s) no longer assembles: status %s" % (name, ",".join(st["kinds"]), r["status"]),
                           key, classes, **detail)
-    img, ori = r["image"] or b"", t["ori"]
+    img = r["image"] or b""
     i = next((i for i in range(min(len(img), len(ori))) if img[i] != ori[i]), min(len(img), len(ori)))
-    return engine.bad("image of rewritten %s (%s) differs from .ori at offset %d (len %d vs %d)"
+    return engine.bad("image of rewritten %s (%s) differs from the image of the unrewritten program at offset %d (len %d vs %d)"
                       % (name, ",".join(st["kinds"]), i, len(img), len(ori)), key, classes, **detail)
 
 
